@@ -3,6 +3,7 @@ from ..main import run_rule
 from ..flow import (resolver, peel, guards_of, rel_fact, aggregates, show, call_guarded, edge_facts,
                     root_local)
 from ..facts import AnchorMissing
+from ..symexec import SymExec
 from . import C04, C10, shared
 
 LEVEL = ('decides: a solution handed out is the snapshot taken while the solver still holds it, never '
@@ -365,6 +366,98 @@ def s16(led, rid, ctx):
               "all_different does not post binary_not_equals on the two loop indices")
 
 
+POSTING = ("add_clause", "add_propagator", "add_tagged_propagator", "implied_by", "post", "add_nogood", "new_propagator")
+
+
+def s18(led, rid, ctx):
+    """MUST-PASS on the path summaries of every Constraint::post / implied_by: a path that returns a
+    freshly built Ok(()) has called something that posts (directly, or in a closure it hands to an
+    iterator), or went through a loop over the constraint's parts.  A branch that returns Ok without
+    posting is a constraint that is silently dropped for the inputs that take it."""
+    lib = ctx.lib
+
+    def posts_in(g):
+        return any(c.name in POSTING for c in g.calls) or any(posts_in(h) for h in g.closures)
+
+    n = 0
+    for imp in lib.impls_of("constraints::Constraint"):
+        if "/tests" in imp["span"]:
+            continue
+        w = (imp.get("self_adt") or imp["self_ty"]).rsplit("::", 1)[-1]
+        for meth in ("post", "implied_by"):
+            f = lib.impl_fn(imp, meth)
+            if f is None:
+                continue
+            heads = set(f.cfg.loop_heads())
+            clos = {g.defn for g in f.closures if posts_in(g)}
+            silent = None
+            paths = 0
+            for p in SymExec(f, max_paths=400, max_visits=2).run():
+                if p.diverged or p.ret is None:
+                    continue
+                paths += 1
+                r = peel(p.ret, calls=None)
+                if not (r.k == "agg" and r.b == "Ok"):
+                    continue
+                posted = False
+                for c, a, res in p.calls:
+                    if c.name in POSTING:
+                        posted = True
+                    for x in a:
+                        for y in x.walk():
+                            if y.k == "closure" and y.a in clos:
+                                posted = True
+                if not posted and not any(b in heads for b in p.blocks) and silent is None:
+                    silent = ", ".join("%s = %s" % (show(c)[:50], v) for c, v, o in p.conds) or "unconditionally"
+            n += 1
+            led.check(silent is None and paths > 0, rid, "%s::%s:every-Ok-path-posts" % (w, meth), f.span,
+                      "%d path summaries" % paths,
+                      "%s::%s returns Ok(()) without posting anything when %s: for those inputs the constraint is "
+                      "not part of the model, and assignments that violate it are reported as solutions"
+                      % (w, meth, silent))
+    led.floor(rid, "post / implied_by implementations", n, 20)
+
+
+def s19(led, rid, ctx):
+    """API-FORWARD: each public variable constructor of `Solver` reaches exactly one engine
+    constructor (through helpers of api/solver.rs): the representation of a domain is not chosen by
+    an input-dependent branch in the API layer, whose correctness no rule here could argue"""
+    lib = ctx.lib
+    n = 0
+    sets = {}
+    for f in lib.fns.values():
+        if not f.file.endswith("api/solver.rs") or not f.name.startswith("new_") or f.kind == "Closure" \
+                or "Solver" not in (f.self_ty or f.defn) or f.vis != "pub":
+            continue
+        seen, eng, todo = set(), {}, [f]
+        while todo:
+            g = todo.pop()
+            if g.defn in seen:
+                continue
+            seen.add(g.defn)
+            todo += list(g.closures)
+            for c in g.calls:
+                for h in lib.callees(c):
+                    if h.file.endswith("api/solver.rs"):
+                        todo.append(h)
+                    elif "/engine/" in h.file and h.name.startswith(("create_new", "new_")):
+                        eng.setdefault(h.name, c.span)
+        n += 1
+        sets[f.name] = sorted(eng)
+        led.check(len(eng) == 1, rid, "%s:one-engine-constructor" % f.name, f.span, ", ".join(sorted(eng)),
+                  "Solver::%s reaches %s: which kind of domain is created depends on a branch in the API layer "
+                  "(%s); if that branch misjudges the input (duplicates, order, emptiness) the variable gets values "
+                  "the model did not give it" % (f.name, " and ".join(sorted(eng)) or "no engine constructor",
+                                                 ", ".join("%s at %s" % kv for kv in sorted(eng.items()))))
+    for a, b in (("new_bounded_integer", "new_named_bounded_integer"), ("new_sparse_integer", "new_named_sparse_integer"),
+                 ("new_literal", "new_named_literal")):
+        if a in sets and b in sets:
+            led.check(sets[a] == sets[b], rid, "%s~%s" % (a, b), None, "same engine constructor",
+                      "Solver::%s and Solver::%s create their variable through different engine constructors "
+                      "(%s / %s)" % (a, b, sets[a], sets[b]))
+    led.floor(rid, "public variable constructors", n, 8)
+
+
 def s17(led, rid, ctx):
     """after the trail is cut back, the mark up to which propagators have been notified is reset to
     the new trail length on every path (otherwise a later backtrack replays undo events of entries
@@ -455,3 +548,5 @@ def _u5b(led, rid, ctx):
     from . import kernel as _kernel2
     _kernel2.run_lifecycle(led, ctx, "S")
     run_rule(led, "S17", "backtrack resets the notified-trail mark", s17, ctx)
+    run_rule(led, "S19", "API-FORWARD: each public variable constructor reaches exactly one engine constructor", s19, ctx)
+    run_rule(led, "S18", "MUST-PASS: no path of a Constraint::post / implied_by returns Ok(()) without posting", s18, ctx)
